@@ -33,8 +33,8 @@ theorem callFun_succ (f : Nat) (t : Tok) (args : List Expr) :
         else
           if (← get).depth + 1 > (← get).depthLimit then rtErr t .budget
           let caller ← curAct
-          modifyAct caller.id fun a => { a with switchTok := some (t.line, t.col) }
           let slots ← bindParams f t fd.params args vals []
+          modifyAct caller.id fun a => { a with switchTok := some (t.line, t.col) }
           modify fun s => { s with depth := s.depth + 1 }
           let r ← withAct (fun id => { id := id, name := fd.name, isFn := true, retTy := fd.ret, vars := slots }) do
             match fd.body with
@@ -129,14 +129,14 @@ theorem run_callEOF (f : Nat) (teof tn : Tok) (n : Str) (σ : St) (a : Act) (res
   have hd' : ¬ (σ.depth + 1 > σ.depthLimit) := by omega
   simp only [hd', if_false]
   have hcur : curAct.run.run σ = (.ok a, σ) := by rw [run_curAct]; unfold curActP; rw [hacts]
-  rw [run_bind_ok _ _ _ _ _ hcur, run_bind_ok _ _ _ _ _ (run_modifyAct _ _ σ)]
+  rw [run_bind_ok _ _ _ _ _ hcur]
   have hbp : ∀ σ', (bindParams (f + 2) teof eofDef.params [Expr.strLit tn n] [Val.str n] []).run.run σ' =
       (.ok [{ name := "File".toList, ty := .str, val := .str n }], σ') := by
     intro σ'
     rw [bindParams.eq_def]
     show (bindParams (f+1) teof [] [] [] [{ name := "File".toList, ty := .str, val := .str n }]).run.run σ' = _
     rw [bindParams.eq_def]; rfl
-  rw [run_bind_ok _ _ _ _ _ (hbp _), run_bind_ok _ _ _ _ _ (run_modify _ _)]
+  rw [run_bind_ok _ _ _ _ _ (hbp _), run_bind_ok _ _ _ _ _ (run_modifyAct _ _ σ), run_bind_ok _ _ _ _ _ (run_modify _ _)]
   dsimp only [eofDef]
   rw [run_bind_ok _ _ _ _ _ (run_withAct_eof n _ σ.handles h ?_ hh hm)]
   · rw [run_bind_ok _ _ _ _ _ (run_modify _ _), run_bind_ok _ _ _ _ _ (run_modifyAct _ _ _)]
